@@ -297,6 +297,7 @@ SQUIDS_FORMS = [
 
 SQUIDS_C05 = [
     Rule("c05.lower_bound", r'auto\s+xit\s*=\s*std::lower_bound\s*\(\s*x\.begin\(\)\s*,\s*x\.end\(\)\s*,\s*xi\s*\)\s*;', 'size_t xit=sq_lower_bound(x,nx,xi);'),
+    Rule("c05.upper_bound", r'auto\s+xit\s*=\s*std::upper_bound\s*\(\s*x\.begin\(\)\s*,\s*x\.end\(\)\s*,\s*xi\s*\)\s*;', 'size_t xit=sq_upper_bound(x,nx,xi);'),
     Rule("c05.end", r'\bxit\s*==\s*x\.end\(\)', 'xit==nx'),
     Rule("c05.begin", r'\bxit\s*!=\s*x\.begin\(\)', 'xit!=0'),
     Rule("c05.front", r'\bx\.front\(\)', 'x[0]'),
@@ -342,6 +343,15 @@ RULESETS = {
     "pade": PADE,
     "padeb": PADE_B,
     "expm_tail": EXPM_TAIL,
+    "squids_move": [
+        Rule("move.take", r'std::move\s*\(\s*other\.(\w+)\s*\)', r'sq_take(&other->\1)'),
+        Rule("move.other", r'(?<![\w.>])other\s*\.\s*', 'other->'),
+        Rule("move.selfcmp", r'&\s*other\s*==\s*this', 'other==self'),
+        Rule("move.params", r'(?<![\w.>])sys\s*\.\s*params\s*=\s*this\b', 'self->sys.params=self'),
+        Rule("move.return", r'return\s*\(\s*\*\s*this\s*\)\s*;', 'return;'),
+        Rule("move.init", r'(?<![\w.>])(%s)\s*\(((?:[^()]|\([^()]*\))*)\)\s*,?' % "CoherentRhoTerms|NonCoherentRhoTerms|OtherRhoTerms|GammaScalarTerms|OtherScalarTerms|AnyNumerics|is_init|adaptive_step|t_ini|t|h_min|h_max|h|abs_error|rel_error|nsteps|size_rho|size_state|nx|nsun|nrhos|nscalars|x|system|dstate|params|state|estate|step|last_dstate_ptr|last_estate_ptr|sys", r'self->\1=(\2);'),
+        Rule("move.member", r'(?<![\w.>])(%s)\b(?!\s*\()' % "CoherentRhoTerms|NonCoherentRhoTerms|OtherRhoTerms|GammaScalarTerms|OtherScalarTerms|AnyNumerics|is_init|adaptive_step|t_ini|t|h_min|h_max|h|abs_error|rel_error|nsteps|size_rho|size_state|nx|nsun|nrhos|nscalars|x|system|dstate|params|state|estate|step|last_dstate_ptr|last_estate_ptr|sys", r'self->\1'),
+    ],
     "rotorder": [
         Rule("rot.assign", r'\*\s*this\s*=\s*Rotate\s*\(', 'su_assign_rotate(self,', min=1),
         Rule("rot.angle", r'\bparam\s*\.\s*GetMixingAngle\s*\(', 'Const_GetMixingAngle(param,', min=1),
